@@ -455,7 +455,8 @@ def run_batch(stream, descs, ex, deterministic=False, only_classes=None):
         ntw = ntrue = 0
         if deterministic:
             twin = []
-            for cls in (classes if not only_classes else only_classes):
+            # may_ against the trigger on the SAME class: the async stage semantics do not matter here
+            for cls in (['HierarchicalMachine', 'HierarchicalAsyncMachine'] if not only_classes else only_classes):
                 fs, n, t = twin_oracle(d, cls)
                 twin += fs
                 ntw += n
